@@ -236,8 +236,9 @@ def _run_build(cfg: TCfg, c: Ctx) -> Any:
     # how the other thread relates to the builder: independent / same thread name / started by the builder's describing
     # function with a copy of its context (as asyncio.to_thread and the async-thread resource do)
     relation = ("independent", "same-name", "inherits-context")[c.choose(3, "relation")]
+    nested_a = bool(c.choose(2, "a_nests"))  # the last statement of A's describing function calls another DAG (embeds it)
     c.heavy()
-    fns = {l: (lambda l: (lambda *a: SymVal(vapp("f_" + l, [lift(v) for v in a]))))(l) for l in ("a0", "a1", "a2", "e0", "e1", "b0", "b1", "solo")}
+    fns = {l: (lambda l: (lambda *a: SymVal(vapp("f_" + l, [lift(v) for v in a]))))(l) for l in ("a0", "a1", "a2", "e0", "e1", "b0", "b1", "solo", "i0", "i1")}
     for l, f in fns.items():
         f.__name__ = f.__qualname__ = l
     xns = {l: xn(f, resource=Resource.main_thread) for l, f in fns.items()}
@@ -251,6 +252,12 @@ def _run_build(cfg: TCfg, c: Ctx) -> Any:
     existing.__qualname__ = existing.__name__ = "existing"
     e = dag(existing)
     e.setup()  # (the property: shared DAGs are used after their setup nodes have run)
+
+    def inner(x):  # type: ignore[no-untyped-def]
+        return xns["i1"](xns["i0"](x), 5)
+
+    inner.__qualname__ = inner.__name__ = "inner"
+    inner_d = dag(inner)
     paused, resume = threading.Event(), threading.Event()
 
     def pause_point() -> None:
@@ -268,7 +275,7 @@ def _run_build(cfg: TCfg, c: Ctx) -> Any:
         for i in range(K):
             if i == pause_at and pausing[0]:
                 pause_point()
-            vals.append(xns["a%d" % i](vals[-1], i))
+            vals.append(inner_d(vals[-1]) if (nested_a and i == K - 1) else xns["a%d" % i](vals[-1], i))
         if pause_at == K and pausing[0]:
             pause_point()
         return vals[-1]
